@@ -18,14 +18,27 @@ theorem get_no_stored_mutation (o : Opts) :
   rcases o with ⟨tw, rs, un, tp, fl, sm⟩
   cases tw <;> cases rs <;> cases un <;> cases tp <;> cases fl <;> cases sm <;> decide
 
-/-- `minima` flips the sign in place — of the array `get` returned, which is never a stored one. -/
-theorem minima_writes_fresh_only (o : Opts) : ∀ w ∈ (runSteps start (minimaProgram o)).2, w = Tag.fresh := by
+/-- `minima` writes to no array in place (it negates into a new array since the F51 repair) and what it works on is never a
+stored array. -/
+theorem minima_writes_nothing (o : Opts) :
+    (runSteps start (minimaProgram o)).2 = [] ∧ (runSteps start (minimaProgram o)).1.x = .fresh := by
   rcases o with ⟨tw, rs, un, tp, fl, sm⟩
   cases tw <;> cases rs <;> cases un <;> cases tp <;> cases fl <;> cases sm <;> decide
 
-/-- The defensive copy at the head of the pipeline is what makes this true: without it the same in-place flip would hit the
-stored data (machine-checked witness of what the dynamic check must detect). -/
-theorem without_copy_minima_mutates_stored :
+/-- In particular every in-place target of `minima` is a fresh array (the form of the statement before the repair, when the
+sign was flipped in place on the array `get` returned). -/
+theorem minima_writes_fresh_only (o : Opts) : ∀ w ∈ (runSteps start (minimaProgram o)).2, w = Tag.fresh := by
+  intro w hw
+  rw [(minima_writes_nothing o).1] at hw
+  cases hw
+
+/-- What the defensive copy at the head of the pipeline protects: without it a retrieval without options hands out the
+stored arrays themselves, and any in-place step of a caller or of a query built on `get` (as `minima` was before the
+repair) would hit the stored data (machine-checked witnesses of what the dynamic check must detect). -/
+theorem without_copy_get_returns_stored :
+    (runSteps start [Step.noCopy]).1 = ⟨Tag.stored, Tag.stored⟩ := by decide
+
+theorem without_copy_inplace_hits_stored :
     (runSteps start ([Step.noCopy, Step.inplaceX])).2 = [Tag.stored] := by decide
 
 /-- Threads that only read the shared store cannot influence each other: after **any** schedule, every computation is in
